@@ -10,7 +10,7 @@ use shred::{Par, ParSeq, ResourceId, RunWithPool, Seq, World};
 
 use crate::{
     model::{Res, Rng},
-    real::{pool, rid, Ctx, EvK, LogSys},
+    real::{pool, rid, Ctx, EvK, LogSys, Zst0, Zst1, Zst2, ZCTX, ZUID},
 };
 
 #[derive(Clone, Debug, PartialEq)]
@@ -105,7 +105,7 @@ pub fn generate(rng: &mut Rng) -> Tree {
 }
 
 /// type-erased node so that trees of run-time shape can be nested into the real (statically typed) Par / Seq
-pub struct Dyn(Box<dyn for<'a> RunWithPool<'a> + Send>);
+pub struct Dyn(Box<dyn for<'a> RunWithPool<'a> + Send>, u8); // .1: 0 = ordinary node, 1..=3 = a bare zero-sized leaf Zst0..Zst2
 impl<'a> RunWithPool<'a> for Dyn {
     fn setup(&mut self, world: &mut World) {
         self.0.setup(world)
@@ -146,6 +146,7 @@ struct B<'c> {
     leaf_acc: Vec<Acc>,
     fail: Option<String>,
     aborted: bool,
+    zst_used: usize,
 }
 
 impl B<'_> {
@@ -156,15 +157,33 @@ impl B<'_> {
                 self.next += 1;
                 let acc: Acc = (r.iter().copied().collect(), w.iter().copied().collect());
                 self.leaf_acc.push(acc.clone());
+                // the first three access-free leaves are zero-sized system types (their identity lives in statics)
+                if r.is_empty() && w.is_empty() && self.zst_used < 3 {
+                    *ZCTX.lock().unwrap() = Some(self.ctx.clone());
+                    ZUID[self.zst_used].store(uid, std::sync::atomic::Ordering::SeqCst);
+                    self.zst_used += 1;
+                    let d = match self.zst_used {
+                        1 => Dyn(Box::new(Zst0), 1),
+                        2 => Dyn(Box::new(Zst1), 2),
+                        _ => Dyn(Box::new(Zst2), 3),
+                    };
+                    return (d, Built::Leaf(uid), acc);
+                }
                 let s = LogSys::new(uid, r.iter().map(|x| rid(*x)).collect(), w.iter().map(|x| rid(*x)).collect(), 3, self.ctx.clone());
-                (Dyn(Box::new(s)), Built::Leaf(uid), acc)
+                (Dyn(Box::new(s), 0), Built::Leaf(uid), acc)
             }
             Tree::Seq(c) => {
                 let (mut node, b0, mut acc) = self.build(&c[0]);
                 let mut kids = vec![b0];
                 for x in &c[1..] {
                     let (n, b, a) = self.build(x);
-                    node = Dyn(Box::new(Seq::new(node).with(n)));
+                    // a zero-sized leaf is handed over as its own type (not boxed), as `seq![a, Unit]` would
+                    node = match n.1 {
+                        1 => Dyn(Box::new(Seq::new(node).with(Zst0)), 0),
+                        2 => Dyn(Box::new(Seq::new(node).with(Zst1)), 0),
+                        3 => Dyn(Box::new(Seq::new(node).with(Zst2)), 0),
+                        _ => Dyn(Box::new(Seq::new(node).with(n)), 0),
+                    };
                     kids.push(b);
                     acc.0.extend(a.0);
                     acc.1.extend(a.1);
@@ -178,7 +197,12 @@ impl B<'_> {
                     let (n, b, a) = self.build(x);
                     let want_panic = conflicts(&acc, &a);
                     // the head is moved into `with`; a rejected child is dropped with it, so rebuild is not possible: stop at a panic
-                    let r = catch_unwind(AssertUnwindSafe(move || Par::new(node).with(n)));
+                    let r: Result<Dyn, _> = catch_unwind(AssertUnwindSafe(move || match n.1 {
+                        1 => Dyn(Box::new(Par::new(node).with(Zst0)), 0),
+                        2 => Dyn(Box::new(Par::new(node).with(Zst1)), 0),
+                        3 => Dyn(Box::new(Par::new(node).with(Zst2)), 0),
+                        _ => Dyn(Box::new(Par::new(node).with(n)), 0),
+                    }));
                     match r {
                         Ok(p) => {
                             if want_panic && self.fail.is_none() {
@@ -187,7 +211,7 @@ impl B<'_> {
                                     a.0, a.1, acc.0, acc.1
                                 ));
                             }
-                            node = Dyn(Box::new(p));
+                            node = p;
                             kids.push(b);
                             acc.0.extend(a.0);
                             acc.1.extend(a.1);
@@ -205,7 +229,7 @@ impl B<'_> {
                             self.next += 1;
                             self.leaf_acc.push((BTreeSet::new(), BTreeSet::new()));
                             let s = LogSys::new(uid, vec![], vec![], 3, self.ctx.clone());
-                            return (Dyn(Box::new(s)), Built::Leaf(uid), (BTreeSet::new(), BTreeSet::new()));
+                            return (Dyn(Box::new(s), 0), Built::Leaf(uid), (BTreeSet::new(), BTreeSet::new()));
                         }
                     }
                 }
@@ -241,7 +265,7 @@ fn seq_order_ok(b: &Built, order: &dyn Fn(usize) -> (usize, usize)) -> Option<(u
 
 pub fn run(tree: &Tree) -> Option<String> {
     let ctx = Ctx::new();
-    let mut b = B { ctx: &ctx, next: 0, leaf_acc: vec![], fail: None, aborted: false };
+    let mut b = B { ctx: &ctx, next: 0, leaf_acc: vec![], fail: None, aborted: false, zst_used: 0 };
     let (root, built, acc) = b.build(tree);
     if let Some(f) = b.fail {
         return Some(f);
